@@ -23,7 +23,7 @@ from . import strings as T
 from .sym import (SInt, SBool, Unsupported, ConcretizeError, fresh_int, fresh_bool, fresh_name,
                   s_and, s_or, s_not, s_ite, s_min, s_max, s_implies, zb, _z, mk_bool, is_sym,
                   range_constraints, same_value, _counter, reset_atoms, QForall, SQuant, SRatio)
-from .values import (CUR, VBytearray, VBytes, SSeq, SMutSeq, SMatrix, SIter, SBits, SRepeat, Obj, TupObj,
+from .values import (CUR, VBytearray, VBytes, SSeq, SMutSeq, SMatrix, SLazySeq, SIter, SBits, SRepeat, Obj, TupObj,
                      CountedList, OpaqueSeq, OpaqueElem, OpaqueIter, FieldBuf)
 
 PKG = 'segno'
@@ -1172,7 +1172,7 @@ class Interp:
             return self.cut_for(s, fr, itv, spec, key)
         if isinstance(itv, Obj):
             itv = self.make_iter(itv)
-        if isinstance(itv, (SRange, SSeq, SBits, SRepeat, CountedList, OpaqueSeq, OpaqueIter)):
+        if isinstance(itv, (SRange, SSeq, SBits, SRepeat, CountedList, OpaqueSeq, OpaqueIter, SLazySeq)):
             raise Unsupported('loop %r over symbolic-length iterable without invariant' % (key,))
         it = self.make_iter(itv)
         while True:
@@ -1268,7 +1268,10 @@ class Interp:
         if isinstance(itv, SRange):
             N = itv.count()
             elem = itv.at
-        elif isinstance(itv, (SSeq, OpaqueSeq, OpaqueIter)):
+        elif isinstance(itv, SRepeat):
+            N = itv.length()
+            elem = lambda k: itv.value
+        elif isinstance(itv, (SSeq, OpaqueSeq, OpaqueIter, SLazySeq)):
             N = itv.length
             elem = itv.at
         elif isinstance(itv, (list, tuple, VBytearray)):
@@ -1521,8 +1524,15 @@ class Interp:
         if isinstance(idx, (GFLin, GFLog)):
             return self.gf_lookup(obj, idx)
         if isinstance(idx, SInt):
-            if isinstance(obj, (SSeq, SBits, VBytearray)):
+            if isinstance(obj, (SSeq, SBits, VBytearray, SLazySeq)):
                 return obj[idx]
+            if isinstance(obj, SRepeat):
+                n_ = obj.length()
+                if self.decide(idx < 0):
+                    idx = idx + n_
+                if not self.decide(s_and(idx >= 0, idx < n_)):
+                    raise PyRaise(IndexError('list index out of range'))
+                return obj.value
             if isinstance(obj, (list, tuple, bytes, bytearray, range)):
                 return self.select_concrete_list(list(obj), idx)
             if isinstance(obj, dict):
@@ -1926,6 +1936,19 @@ class Interp:
         return out
 
     def e_GeneratorExp(self, n, fr):
+        if len(n.generators) == 1 and not n.generators[0].ifs and not n.generators[0].is_async:
+            g = n.generators[0]
+            if _is_pure(g.iter):
+                itv = self.eval(g.iter, fr)
+                if isinstance(itv, SRange) and not isinstance(itv.start, int):
+                    # (elt for x in range(symbolic, symbolic)): element k is computed on demand
+                    def elem(k, itv=itv, g=g, n=n, fr=fr):
+                        cfr = Frame(fr, fr.globals, fr.qualname, fr.modname, fr.func_node, fr.cls)
+                        self.assign(g.target, itv.at(k), cfr)
+                        return self.eval(n.elt, cfr)
+                    lz = SLazySeq(itv.count(), elem, kind='generator')
+                    lz.node, lz.target, lz.range, lz.frame = n, g.target, itv, fr
+                    return lz
         r = self.e_ListComp(n, fr)
         if isinstance(r, CountedImage):
             return r
@@ -2283,6 +2306,12 @@ def _build_models(I):
     def m_tuple(x=()):
         if isinstance(x, tuple):
             return x
+        if isinstance(x, SLazySeq):
+            lz = SLazySeq(x.length, x.elem, kind='tuple')
+            for a in ('block_count', 'block_len', 'block_elem'):
+                if hasattr(x, a):
+                    setattr(lz, a, getattr(x, a))
+            return lz
         return tuple(I.iterate(x))
     M[tuple] = m_tuple
 
@@ -2352,6 +2381,31 @@ def _build_models(I):
     M[functools.reduce] = m_reduce
 
     def m_chain_from_iterable(its):
+        if isinstance(its, SLazySeq) and its.kind == 'generator':
+            # chain.from_iterable(repeat(E(x), c) for x in range(..)) with c independent of x:
+            # the concatenation has length N * c and element p is E(x_(p // c))
+            elt = its.node.elt
+            tnames = {n_.id for n_ in ast.walk(its.target) if isinstance(n_, ast.Name)}
+            if isinstance(elt, ast.Call) and not elt.keywords and len(elt.args) == 2 and I.eval(elt.func, its.frame) is itertools.repeat \
+                    and not any(isinstance(n_, ast.Name) and n_.id in tnames for n_ in ast.walk(elt.args[1])) and _is_pure(elt.args[1]):
+                c = I.eval(elt.args[1], its.frame)
+                if isinstance(c, SInt) and I.decide(c < 0):
+                    c = 0
+                gen = its
+
+                def block_elem(q):
+                    cfr = Frame(gen.frame, gen.frame.globals, gen.frame.qualname, gen.frame.modname, gen.frame.func_node, gen.frame.cls)
+                    I.assign(gen.target, gen.range.at(q), cfr)
+                    return I.eval(elt.args[0], cfr)
+
+                def elem(p):
+                    if isinstance(c, int) and c > 0:
+                        return block_elem(p // c)
+                    raise Unsupported('element of a concatenation of symbolic-length repeats by absolute position (use block_elem)')
+                lz = SLazySeq(its.length * c, elem, kind='iterator')
+                lz.block_count, lz.block_len, lz.block_elem = its.length, c, block_elem
+                return lz
+            raise Unsupported('chain.from_iterable over a lazy generator of unknown shape')
         out = []
         for it in I.iterate(its):
             out.extend(I.iterate(it))
@@ -2385,7 +2439,7 @@ def _build_models(I):
 
     def m_repeat(v, *n):
         if n and is_sym(n[0]):
-            raise Unsupported('repeat with symbolic count')
+            return SRepeat(v, n[0])
         return itertools.repeat(v, *n)
     M[itertools.repeat] = m_repeat
 
